@@ -24,11 +24,11 @@ func concGroups(env *core.Env, groups int) []core.Case {
 		// of its own entry points overlap), the others mix the packages
 		only := -1
 		if g%3 == 0 {
-			only = []int{0, 3, 4, 5, 6, 6, 7}[r.Intn(7)]
+			only = []int{0, 3, 4, 5, 6, 6, 7, 8, 8}[r.Intn(9)]
 		}
 		for j := 0; j < k; j++ {
 			var c gen.M
-			pick := r.Intn(8)
+			pick := r.Intn(9)
 			if only >= 0 {
 				pick = only
 			}
@@ -75,6 +75,30 @@ func concGroups(env *core.Env, groups int) []core.Case {
 					ev = append(ev, gen.M{"op": "check", "entry": "reader", "src": "solver", "cert": [][]int{}, "mut": "none", "seed": r.Intn(1 << 20)})
 				}
 				c = gen.M{"drv": "explain", "n": n, "clauses": clauses, "ev": ev, "tm": "ExplainTrace"}
+			case 8: // a short history (AppendClause, Assume, Solve) on a tiny problem, often one that is refuted
+				// when it is parsed: whatever such solvers share must not carry one user's clauses to another
+				nv := 2 + r.Intn(3)
+				clauses := gen.RandCNF(r, nv, r.Intn(2*nv+1), 3, false)
+				if r.Intn(2) == 0 {
+					x := gen.RandLit(r, nv)
+					clauses = append(clauses, []int{x}, []int{-x})
+				}
+				var ev []gen.M
+				// each history stays inside the alphabet of ONE property: Solve / AppendClause (C09) or rounds of
+				// Assume + Solve (C10); a history mixing the two is outside both statements
+				appendStyle := r.Intn(2) == 0
+				for st := 1 + r.Intn(3); st > 0; st-- {
+					if appendStyle {
+						if r.Intn(3) > 0 {
+							ev = append(ev, gen.M{"op": "append", "c": gen.Clause(gen.RandClause(r, nv, 1+r.Intn(2), true)...)})
+						}
+					} else {
+						ev = append(ev, gen.M{"op": "assume", "ls": gen.RandClause(r, nv, 1+r.Intn(2), true)})
+					}
+					ev = append(ev, gen.Op("solve"))
+				}
+				c = gen.APICase("slicenb", nv, true, gen.ClauseCtors(clauses), false, nil, gen.Cfg(false, 0, 0, false, false, false), ev)
+				c["tm"] = "APITrace"
 			default: // boolean formula
 				k := 2 + r.Intn(4)
 				f := gen.RandFormula(r, k, 2+r.Intn(2), 1, 1, 4)
